@@ -70,6 +70,7 @@ class Spec:
         self.includes = []
         self.defs = []        # raw C lines placed before the contracts
         self.cxxflags = []
+        self.nop2cflags = []
 
 
 def parse_spec(unit):
@@ -113,6 +114,10 @@ def parse_spec(unit):
                 sp.jobs.append(cur)
             elif w == "c":
                 sp.defs.append(rest)
+                kind = None
+            elif w == "nop2cflags":
+                # options of the lowering tool itself (e.g. --hoist=status for loop contracts)
+                sp.nop2cflags += rest.split()
                 kind = None
             elif w == "cxxflags":
                 # extra flags for the lowering only (e.g. the std container models); the native replay
@@ -194,11 +199,11 @@ def gen_headers(workdir):
     open(os.path.join(workdir, "fmt_prefix.h"), "w").write(so)
 
 
-def lower(unit, workdir, extra_flags=()):
+def lower(unit, workdir, extra_flags=(), tool_flags=()):
     src = os.path.join(VERIF, "units", unit + ".cpp")
     out_c = os.path.join(workdir, unit + ".c")
     out_map = os.path.join(workdir, unit + ".map.json")
-    cmd = [os.path.join(VERIF, "tools", "nop2c"), src, "--out=" + out_c, "--map=" + out_map, "--"] + list(extra_flags) + CXXFLAGS + ["-I" + workdir, "-I" + CLANG_RES, "-Wno-everything"]
+    cmd = [os.path.join(VERIF, "tools", "nop2c"), src, "--out=" + out_c, "--map=" + out_map] + list(tool_flags) + ["--"] + list(extra_flags) + CXXFLAGS + ["-I" + workdir, "-I" + CLANG_RES, "-Wno-everything"]
     rc, so, se, dt = run(cmd, timeout=300, mem=False)
     if rc != 0:
         raise Undecided("lowering of unit %s failed (nop2c exit %d) — extraction break, not a violation:\n%s" % (unit, rc, (se or so)[-3000:]))
@@ -636,7 +641,7 @@ def selftest(unit_names, runs, seed):
             sp = parse_spec(unit)
             if sp.cxxflags:
                 log("  selftest: unit %s uses std models when lowered; the native C++ side uses the real library — compared anyway" % unit)
-            u = lower(unit, workdir, sp.cxxflags)
+            u = lower(unit, workdir, sp.cxxflags, sp.nop2cflags)
             harnesses = [f["c"] for f in u.map["functions"] if f["main"] and f["body"] and f["c"].startswith("h_")]
             if not harnesses:
                 continue
@@ -738,7 +743,7 @@ def check(prop, tier, only_jobs=None, keep=False):
         jobs += mine
     # lower the needed units in parallel
     with concurrent.futures.ThreadPoolExecutor(NCPU) as ex:
-        futs = {ex.submit(lower, unit, workdir, specs[unit].cxxflags): unit for unit in specs}
+        futs = {ex.submit(lower, unit, workdir, specs[unit].cxxflags, specs[unit].nop2cflags): unit for unit in specs}
         for f in concurrent.futures.as_completed(futs):
             try:
                 units[futs[f]] = f.result()
@@ -757,7 +762,7 @@ def check(prop, tier, only_jobs=None, keep=False):
                     except Undecided as e:
                         undecided.append(str(e))
                         continue
-                    futs[ex.submit(lower, unit, workdir, spx.cxxflags)] = unit
+                    futs[ex.submit(lower, unit, workdir, spx.cxxflags, spx.nop2cflags)] = unit
             for f in concurrent.futures.as_completed(futs):
                 try:
                     lowered_all[futs[f]] = f.result()
